@@ -630,6 +630,7 @@ class Engine:
         try:
             vals = {nm: b(bc, nm) for nm, b in c.params.items()}
             path.inputs = vals
+            path.live = vals           # the objects the code runs on (path.inputs becomes the pre-state snapshot below)
             path.contract = c
             env = self.spec_env(it, c, m, vals)
             self.eval_lets(it, c, env, pre=True)
